@@ -25,7 +25,7 @@ META = {
                    "string terms; real _geqdsk.write and read run on symbolic values with f2s/float() replaced by an injective token pair.",
     "bounds": "float tokens with 2-digit exponents (3-digit exponents reported separately, outside the property's stated domain); continuation strings <= 20 chars; "
               "header: nx, ny as digit strings of length 1..5; layout: nx,ny in 1..4 (quick) / 1..7 (thorough), nbdry,nlim in 0..3, optional keys present/absent",
-    "out": "that printf('%1.9E') followed by float() reproduces a double to ten significant digits (C library); read_geqdsk's mapping to R,Z grids",
+    "out": "that printf('%1.9E') followed by float() reproduces a double to ten significant digits (C library)",
     "assumptions": ["C printf %1.<p>E produces -?d.d{p}E[+-]dd(d) for finite doubles (validated against the real f2s on sample floats each run)",
                     "Python's re picks, for this pattern shape, the greedy sign, the maximal digit run and the group when it matches",
                     "injective token pair for f2s/float justified by the token-language obligations"],
